@@ -865,6 +865,17 @@ func c05RunTCP(cs *c05Case) (res c05Result) {
 
 func TestVerifC05(t *testing.T) {
 	verifEachLine(t, func(line []byte) any {
+		var kd struct {
+			Kind string `json:"kind"`
+		}
+		_ = json.Unmarshal(line, &kd)
+		if kd.Kind == "splice" {
+			var sc c05SpliceCase
+			if err := json.Unmarshal(line, &sc); err != nil {
+				return c05SpliceResult{Splice: true, Panic: "bad case: " + err.Error()}
+			}
+			return c05RunSplice(&sc)
+		}
 		var cs c05Case
 		if err := json.Unmarshal(line, &cs); err != nil {
 			return c05Result{Panic: "bad case: " + err.Error()}
